@@ -201,14 +201,76 @@ Definition rep_insert (rs : Z) (rt : list tk) (ph : tk) (items : list node) (i :
   | _, _ => rep_insert_A rs rt ph items i seps y
   end.
 
+(* models/internal/fields.py _touches (as added by fixes/optional-remove-keeps-separator-when-glued.patch): walk
+   from the child by get_next / get_prev, skip the tokens without text; the nearest token with text shows, at its
+   end 0 / -1, a character other than a blank or a bracket (" \t\r\n{}()"). `l` = the tokens met, nearest first.
+   Texts are the UTF-8 bytes of raw_text: a byte below 128 is a character of its own, and none of the eight
+   characters is part of a longer sequence. *)
+Definition self_delimiting (a : Ascii.ascii) : bool :=
+  existsb (Ascii.eqb a) [" "; "009"; "013"; "010"; "{"; "}"; "("; ")"]%char.
+Fixpoint last_char (s : string) (a : Ascii.ascii) : Ascii.ascii :=
+  match s with String.EmptyString => a | String.String b r => last_char r b end.
+Fixpoint touches (first_char : bool) (l : list tk) : bool :=
+  match l with
+  | [] => false
+  | t :: r =>
+    match k_text t with
+    | String.EmptyString => touches first_char r
+    | String.String a s => negb (self_delimiting (if first_char then a else last_char s a))
+    end
+  end.
+
+(* Python `not raw_text.strip()`: the text consists of white space only (str.isspace code points: U+0009..000D,
+   U+001C..0020, U+0085, U+00A0, U+1680, U+2000..200A, U+2028, U+2029, U+202F, U+205F, U+3000) or is empty. Texts are
+   the UTF-8 bytes of raw_text (see self_delimiting below), so the code points appear as their 1-3 byte sequences. *)
+Fixpoint py_blank (s : string) : bool :=
+  match s with
+  | String.EmptyString => true
+  | String.String a r =>
+    let n := Ascii.N_of_ascii a in
+    if (N.leb 9 n && N.leb n 13) || (N.leb 28 n && N.leb n 32) then py_blank r
+    else
+      match r with
+      | String.EmptyString => false
+      | String.String b r2 =>
+        let m := Ascii.N_of_ascii b in
+        if N.eqb n 194 then (N.eqb m 133 || N.eqb m 160) && py_blank r2
+        else
+          match r2 with
+          | String.EmptyString => false
+          | String.String c r3 =>
+            let k := Ascii.N_of_ascii c in
+            ((N.eqb n 225 && N.eqb m 154 && N.eqb k 128)
+             || (N.eqb n 226 && N.eqb m 128
+                 && ((N.leb 128 k && N.leb k 138) || N.eqb k 168 || N.eqb k 169 || N.eqb k 175))
+             || (N.eqb n 226 && N.eqb m 129 && N.eqb k 159)
+             || (N.eqb n 227 && N.eqb m 128 && N.eqb k 128))
+            && py_blank r3
+          end
+      end
+  end%N.
+Definition blank_tk (t : tk) : bool := py_blank (k_text t).
+
+(* the position of the first token of the unit u in T *)
+Definition first_off (T u : list tk) : option nat :=
+  match u with [] => None | z :: _ => find_off z T end.
+
 (* RepeatedNodeWrapper._del_tokens, one item (pop / __delitem__). In general everything from just after
-   the previous item (or the placeholder) up to the end of item i leaves: the separators before it and the item ... *)
-Definition rep_remove_A (rs : Z) (rt : list tk) (ph : tk) (items : list node) (i : nat) : option (node * slot) :=
+   the previous item (or the placeholder) up to the end of item i leaves: the separators before it and the item.
+   (fixes/repeated-remove-keeps-separator-when-glued.patch) Unless an item follows (stop < len(items)), there are
+   tokens between the previous unit and the item (first_token is not item_first: a < xa), the item touches what
+   follows it (`keep` = the outcome of _touches(last_token, get_next, 0); it looks beyond the node: remove_item
+   evaluates it on the root's tokens) and all the tokens in between are blank: then those stay, the removal starts at
+   the item's first token. The tokens that stay lie strictly inside rt (an item follows them). *)
+Definition rep_remove_from (keep : bool) (rt : list tk) (items : list node) (i a xa : nat) : nat :=
+  if Nat.ltb (S i) (length items) && Nat.ltb a xa && keep && forallb blank_tk (slice rt a xa) then xa else a.
+Definition rep_remove_A (keep : bool) (rs : Z) (rt : list tk) (ph : tk) (items : list node) (i : nat) : option (node * slot) :=
   match nth_error items i with
   | Some x =>
-    match after_unit rt (prev_unit ph items i), after_unit rt (node_toks x) with
-    | Some a, Some b => Some (x, SRep rs (cut rt a b) ph (firstn i items ++ skipn (S i) items))
-    | _, _ => None
+    match after_unit rt (prev_unit ph items i), after_unit rt (node_toks x), first_off rt (node_toks x) with
+    | Some a, Some b, Some xa =>
+      Some (x, SRep rs (cut rt (rep_remove_from keep rt items i a xa) b) ph (firstn i items ++ skipn (S i) items))
+    | _, _, _ => None
     end
   | None => None
   end.
@@ -222,10 +284,10 @@ Definition rep_remove_B (rs : Z) (rt : list tk) (ph : tk) (x z : node) (rest : l
     end
   | _, _ => None
   end.
-Definition rep_remove (rs : Z) (rt : list tk) (ph : tk) (items : list node) (i : nat) : option (node * slot) :=
+Definition rep_remove (keep : bool) (rs : Z) (rt : list tk) (ph : tk) (items : list node) (i : nat) : option (node * slot) :=
   match i, items with
   | O, x :: z :: rest => rep_remove_B rs rt ph x z rest
-  | _, _ => rep_remove_A rs rt ph items i
+  | _, _ => rep_remove_A keep rs rt ph items i
   end.
 
 Definition with_rep (n : node) (f : string) (sl' : slot) : option node :=
@@ -253,10 +315,10 @@ Definition insert_item_at (n : node) (f : string) (i : nat) (seps : list tk) (y 
     match rep_insert rs rt ph items i seps y with Some sl' => with_rep n f sl' | None => None end
   | None => None
   end.
-Definition remove_item_at (n : node) (f : string) (i : nat) : option (node * node) :=
+Definition remove_item_at (keep : bool) (n : node) (f : string) (i : nat) : option (node * node) :=
   match node_rep n f with
   | Some (rs, rt, ph, items) =>
-    match rep_remove rs rt ph items i with
+    match rep_remove keep rs rt ph items i with
     | Some (x, sl') => match with_rep n f sl' with Some n' => Some (x, n') | None => None end
     | None => None
     end
@@ -269,10 +331,25 @@ Definition insert_item (root : node) (p : path) (f : string) (i : nat) (seps : l
   | Some old => match insert_item_at old f i seps y with Some new => plug root p new | None => None end
   | None => None
   end.
+(* _touches(items[i].last_token, get_next, 0) evaluated in the root's token list (the part of the store the model
+   knows): the nearest token with text after the last token of item i shows at its first character something other
+   than a blank or a bracket *)
+Definition rep_touches (root old : node) (f : string) (i : nat) : bool :=
+  match node_rep old f with
+  | Some (_, _, _, items) =>
+    match nth_error items i with
+    | Some x => match after_unit (node_toks root) (node_toks x) with
+                | Some b => touches true (skipn b (node_toks root))
+                | None => false
+                end
+    | None => false
+    end
+  | None => false
+  end.
 Definition remove_item (root : node) (p : path) (f : string) (i : nat) : option (node * node) :=
   match select root p with
   | Some old =>
-    match remove_item_at old f i with
+    match remove_item_at (rep_touches root old f i) old f i with
     | Some (x, new) => match plug root p new with Some root' => Some (x, root') | None => None end
     | None => None
     end
@@ -327,25 +404,6 @@ Definition create_opt_at (cs : classes_t) (n : node) (f : string) (seps : list t
       | None => None
       end
     | _, _ => None
-    end
-  end.
-
-(* models/internal/fields.py _touches (as added by fixes/optional-remove-keeps-separator-when-glued.patch): walk
-   from the child by get_next / get_prev, skip the tokens without text; the nearest token with text shows, at its
-   end 0 / -1, a character other than a blank or a bracket (" \t\r\n{}()"). `l` = the tokens met, nearest first.
-   Texts are the UTF-8 bytes of raw_text: a byte below 128 is a character of its own, and none of the eight
-   characters is part of a longer sequence. *)
-Definition self_delimiting (a : Ascii.ascii) : bool :=
-  existsb (Ascii.eqb a) [" "; "009"; "013"; "010"; "{"; "}"; "("; ")"]%char.
-Fixpoint last_char (s : string) (a : Ascii.ascii) : Ascii.ascii :=
-  match s with String.EmptyString => a | String.String b r => last_char r b end.
-Fixpoint touches (first_char : bool) (l : list tk) : bool :=
-  match l with
-  | [] => false
-  | t :: r =>
-    match k_text t with
-    | String.EmptyString => touches first_char r
-    | String.String a s => negb (self_delimiting (if first_char then a else last_char s a))
     end
   end.
 
